@@ -11,6 +11,9 @@ NOTE = ("Trusted base: the Go type checker (go/types), go/packages loading of /r
 
 # id -> (technique, level text, design ref)
 CLAIMS = {
+ "C21": ("who-may-call of checked/wrapping NumberValue arithmetic inside the range iterator and membership functions + controlling-condition check of the construction guards",
+         "Structural necessary conditions: iteration and membership use comparisons only (the two arithmetic calls of the reviewed tree are recorded as known findings with their failing inputs) and construction rejects zero and diverging steps.",
+         "DESIGN.md §4 C21"),
  "C08": ("arm-by-arm token agreement of the two generated subtype checkers under the sema/static name map + inverse switch-table check of the primitive type conversions + sibling agreement of cache-key constructors + SSA shape check of the optional fast path",
          "Structural necessary conditions: the checker's and the run-time subtype tables decide every simple super type identically, primitive conversions are inverse, the VM's type cache cannot merge distinct types, and the run-time optional fast path unwraps both sides.",
          "DESIGN.md §4 C08"),
